@@ -10,6 +10,12 @@ LEVEL_TEXT = ('seeded deterministic simulation: many short, diverse simulated ru
               'by invariants over the recorded history; a clean batch is evidence, not proof')
 
 CHECKS = {
+    'C01': dict(engine='sim', design='5/C01', technique='deterministic simulation with fault injection: seeded op schedules over random compositions and member worlds, rejected actions and membership probes injected mid-history, totality / closure / independent membership predicates checked per operation',
+                note='trusted: the independent membership predicates and descriptor reader; state membership is colour-blind as the statement lists; components are only composed with worlds keeping their documented preconditions'),
+    'C10': dict(engine='sim', design='5/C10', technique='deterministic simulation: seeded op schedules with door/key/box scenes planted in front of the agent, per-component refinement of door/box cells and held item against a reference model, history monitor that no door is open without a documented actuation',
+                note='trusted: reference model and descriptor reader; raising steps are C01\'s'),
+    'C12': dict(engine='sim', design='5/C12', technique='deterministic simulation: seeded op schedules; every reward/termination component, composite and the step\'s (reward, flag) compared with the documented formula on (state, action, returned next state), plus direct component calls on arbitrary triples asked twice',
+                note='trusted: documented formulas in gvsim/model.py; floats compared with tolerance 1e-9; agent-on-Wall states excluded from the bump oracle; memory rewards judged on single-beacon-colour states'),
     'C08': dict(engine='sim', design='5/C08', technique='deterministic simulation: seeded op schedules over free-form worlds and shipped configurations, per-component and per-step refinement of the agent pose against a reference model, history invariant',
                 note='trusted: the reference model (gvsim/model.py) and the descriptor reader (gvsim/lib.py); teleport destinations are judged by C11, raising steps by C01'),
     'C09': dict(engine='sim', design='5/C09', technique='deterministic simulation: seeded op schedules, per-component object-inventory conservation and pick-and-drop case analysis against a reference model',
